@@ -403,3 +403,47 @@ package nbhttp
 //@   at before:CloseAndClean#2 assume pinv2: arg_p.state != stateClose && arg_p.bytesCached != nil ==> liveP[arg_p.bytesCached]
 //@   loop 1
 //@     invariant !conn.gPErr && pbuf != nil && parserCloser != nil
+
+// =====================================================================================================================
+// request/response body storage (body.go)
+// =====================================================================================================================
+//@ pred BodyInv(br *BodyReader) := br.engine != nil && br.engine.BodyAllocator != nil && BufsLive(br.buffers, off(br.buffers)) && BufsDistinct(br.buffers)
+// positions are absolute (offset included): triggers with index arithmetic do not match
+//@ pred BufsLive(bs []*[]byte, from int) := forall p int {mem(bs, p)} :: from <= p && p < off(bs) + len(bs) ==> mem(bs, p) != nil && mem(bs, p) <= top && liveP[mem(bs, p)]
+//@ pred BufsDistinct(bs []*[]byte) := forall p int, q int {mem(bs, p), mem(bs, q)} :: off(bs) <= p && p < q && q < off(bs) + len(bs) ==> mem(bs, p) != mem(bs, q)
+
+// ---- append: the accepted body never exceeds the configured maximum (C08); what is accepted is accounted for
+//@ func (*BodyReader).append
+//@   props C08 C11
+//@   safety index slice nil div assert panic make
+//@   requires BodyInv(br)
+//@   ensures max: result == nil && br.engine.MaxHTTPBodySize > 0 && old(len(data)) > 0 ==> br.left <= br.engine.MaxHTTPBodySize    // prop C08
+//@   ensures sum: result == nil ==> br.left == old(br.left) + old(len(data))                                             // prop C08
+//@   ensures refuse: result != nil ==> br.left == old(br.left) && len(br.buffers) == old(len(br.buffers))                // prop C08
+//@   ensures inv: BodyInv(br)                                                                                            // prop C11
+//@   assigns everything
+
+// ---- Close: every stored buffer is given back exactly once; nothing is left to give back twice (C11)
+//@ func (*BodyReader).Close
+//@   props C11
+//@   safety index slice nil div assert panic make
+//@   requires !br.closed ==> BodyInv(br)
+//@   ensures closed: br.closed && (!old(br.closed) ==> br.buffers == nil && br.left == 0)
+//@   ensures freed: !old(br.closed) ==> (forall p int {memold(br.buffers, p)} :: old(off(br.buffers)) <= p && p < old(off(br.buffers) + len(br.buffers)) ==> !liveP[memold(br.buffers, p)])   // prop C11
+//@   ensures idem: old(br.closed) ==> (forall q int :: liveP[q] == old(liveP[q]))                                         // prop C11
+//@   assigns everything
+//@   loop 1
+//@     invariant rangeindex >= -1 && br.engine != nil && br.engine.BodyAllocator != nil && br.buffers == old(br.buffers)
+//@     invariant BufsLive(br.buffers, off(br.buffers) + rangeindex + 1) && BufsDistinct(br.buffers)
+//@     invariant forall p int {mem(br.buffers, p)} :: off(br.buffers) <= p && p <= off(br.buffers) + rangeindex && p < off(br.buffers) + len(br.buffers) ==> !liveP[mem(br.buffers, p)]
+
+// ---- Read: a consumed buffer is given back once and dropped from the list in the same step (C11); panic-free for any state (C08)
+//@ func (*BodyReader).Read
+//@   props C08 C11
+//@   safety index slice nil div assert panic make
+//@   requires !br.closed ==> BodyInv(br) && br.index >= 0
+//@   ensures inv: !br.closed ==> BodyInv(br) && br.index >= 0                                                            // prop C11
+//@   ensures n: 0 <= result0 && result0 <= old(len(p))                                                                  // prop C08
+//@   assigns everything
+//@   loop 1
+//@     invariant BodyInv(br) && br.index >= 0 && 0 <= ncopy && ncopy <= need && need == len(p) && !br.closed
